@@ -327,30 +327,37 @@ inductive FacetErr where
   | unmodelled     -- facet over run IDs or values (the shelve code indexes the wrong table there)
 deriving DecidableEq, Repr
 
-/-- `SearchFacade.facet` followed by `_facet`, for the four name columns.  A run-ID parameter that
-    is (or scrubs to) a list without members is outside the model: the code then facets over run
-    IDs through the wrong table, and whether a member-less *text* counts as `[]` depends on the
-    raw string. -/
-def facet (db : DB) (p : Params) : Except FacetErr (List String) :=
+/-- the guard of `SearchFacade.facet` and the choice of the facet column in `_facet`, for the four
+    name columns.  A run-ID parameter that is (or scrubs to) a list without members is outside the
+    model: the code then facets over run IDs through the wrong table, and whether a member-less
+    *text* counts as `[]` depends on the raw string. -/
+def facetField (p : Params) : Except FacetErr String :=
   let sp := scrubParams p
   if isEmptyList sp.runids then .error .unmodelled
   else if empties p != 1 then .error .valueError
   else
     match emptyField sp with
     | none => .error .unmodelled
-    | some f =>
-      if f == "runids" || f == "vals" then .error .unmodelled
-      else
-        match primeKeys db sp, tableOf.lookup f with
-        | some pks, some t =>
-          match db.cat? t with
-          | none => .error .unmodelled
-          | some c =>
-            match mapOpt (fun pk => match pk.toList[alignOrder.idxOf f]? with
-                                    | some id => pyIndex c.index id
-                                    | none => none) pks with
-            | none => .error .indexError
-            | some names => .ok (sortDedup strLt names)
-        | _, _ => .error .unmodelled
+    | some f => if f == "runids" || f == "vals" then .error .unmodelled else .ok f
+
+/-- `_facet` once the column is known: `sorted({dissect(table[pk[idx]])[1] for pk in pks})` -/
+def facetNames (db : DB) (sp : Params) (f : String) : Except FacetErr (List String) :=
+  match primeKeys db sp, tableOf.lookup f with
+  | some pks, some t =>
+    match db.cat? t with
+    | none => .error .unmodelled
+    | some c =>
+      match mapOpt (fun pk => match pk.toList[alignOrder.idxOf f]? with
+                              | some id => pyIndex c.index id
+                              | none => none) pks with
+      | none => .error .indexError
+      | some names => .ok (sortDedup strLt names)
+  | _, _ => .error .unmodelled
+
+/-- `SearchFacade.facet` followed by `_facet` -/
+def facet (db : DB) (p : Params) : Except FacetErr (List String) :=
+  match facetField p with
+  | .error e => .error e
+  | .ok f => facetNames db (scrubParams p) f
 
 end DawgieVerif.Search
